@@ -62,6 +62,18 @@ class StrModel:
             return f(recv)
         if name == "copy":
             return recv
+        if name in ("startswith", "endswith") and is_strterm(recv) and len(args) == 1 and not kwargs:
+            # prefix / suffix test against literals: an uninterpreted predicate of (string, literal) - a function of its arguments, nothing more
+            a = norm_str(args[0])
+            ps = [norm_str(x) for x in a] if isinstance(a, tuple) else [a]
+            if ps and all(isinstance(x, str) for x in ps):
+                P = z3.Function("str_" + name, StrSort, StrSort, z3.BoolSort())
+                from ..values import INTERN
+                for x in ps:                      # exact on every literal known so far (a symbolic string constrained to literals gets the real answer)
+                    px = to_z3(x)
+                    for L, term in list(INTERN.table.items()):
+                        st.assume(P(term, px) == z3.BoolVal(getattr(L, name)(x)))
+                return z3.Or(*[P(to_z3(recv), to_z3(x)) for x in ps]) if len(ps) > 1 else P(to_z3(recv), to_z3(ps[0]))
         raise OutOfSubset(f"str.{name} on {recv!r}")
 
     def join_sym(self, I, st, sep, lst, node):
